@@ -196,11 +196,11 @@ def gen_chain_consts() -> str:
     out.append("inductive TokKind where\n  | lit (s : List Char)\n  | word\n  | digits\n  | alt (opts : List (List Char))\n  | optTilde\n  deriving DecidableEq, Repr, Inhabited")
     out.append("structure Tk where\n  kind : TokKind\n  cap : Bool\n  deriving DecidableEq, Repr, Inhabited")
     out.append(
-        "structure PropSpec where\n  key : List Char\n  hasDefault : Bool\n  context : Bool\n  strict : Bool\n  validator : String\n  values : List (List Char)\n  deriving DecidableEq, Repr, Inhabited"
+        "structure PropSpec where\n  key : List Char\n  hasDefault : Bool\n  context : Bool\n  strict : Bool\n  validator : List Char\n  values : List (List Char)\n  deriving DecidableEq, Repr, Inhabited"
     )
     out.append(
-        "structure Group where\n  name : String\n  pattern : String\n  toks : List Tk\n  minIn : Nat\n  maxIn : Option Nat\n  inSep : List Char\n"
-        "  vocab : List (String × List (List Char))\n  props : List PropSpec\n  inputImpl : String\n  matchImpl : String\n  hookImpl : String\n"
+        "structure Group where\n  name : List Char\n  pattern : String\n  toks : List Tk\n  minIn : Nat\n  maxIn : Option Nat\n  inSep : List Char\n"
+        "  vocab : List (List Char × List (List Char))\n  props : List PropSpec\n  inputImpl : List Char\n  matchImpl : List Char\n  hookImpl : List Char\n"
         "  impls : List (String × String)\n  deriving Repr, Inhabited"
     )
     out.append("")
@@ -222,12 +222,12 @@ def gen_chain_consts() -> str:
         for p in g["props"]:
             props.append(
                 "{ key := %s, hasDefault := %s, context := %s, strict := %s, validator := %s, values := %s }"
-                % (lchars(p["key"]), lbool(p["hasDefault"]), lbool(p["context"]), lbool(p["strict"]), lstr(p["validator"]), llist([lchars(v) for v in p["values"]]))
+                % (lchars(p["key"]), lbool(p["hasDefault"]), lbool(p["context"]), lbool(p["strict"]), lchars(p["validator"]), llist([lchars(v) for v in p["values"]]))
             )
-        vocab = ["(%s, %s)" % (lstr(n), llist([lchars(v) for v in vs])) for n, vs in g["vocab"]]
+        vocab = ["(%s, %s)" % (lchars(n), llist([lchars(v) for v in vs])) for n, vs in g["vocab"]]
         impls = ["(%s, %s)" % (lstr(c), lstr(fw)) for c, _m, fw in g["impls"]]
         out.append(f"def {ident} : Group where")
-        out.append(f"  name := {lstr(g['name'])}")
+        out.append(f"  name := {lchars(g['name'])}")
         out.append(f"  pattern := {lstr(g['pattern'])}")
         out.append("  toks := " + llist(toks))
         out.append(f"  minIn := {g['minIn']}")
@@ -235,9 +235,9 @@ def gen_chain_consts() -> str:
         out.append("  inSep := " + lchars(g["inSep"]))
         out.append("  vocab := " + llist(vocab))
         out.append("  props := " + llist(props))
-        out.append(f"  inputImpl := {lstr(g['inputImpl'])}")
-        out.append(f"  matchImpl := {lstr(g['matchImpl'])}")
-        out.append(f"  hookImpl := {lstr(g['hookImpl'])}")
+        out.append(f"  inputImpl := {lchars(g['inputImpl'])}")
+        out.append(f"  matchImpl := {lchars(g['matchImpl'])}")
+        out.append(f"  hookImpl := {lchars(g['hookImpl'])}")
         out.append("  impls := " + llist(impls))
         out.append("")
     out.append("/-- every built-in chained feature-group base class, sorted by class name -/")
